@@ -732,7 +732,18 @@ def parse_model(model: str, *, check_syntax: bool = True) -> List[Symbol]:
                     # for the parser or the compiler - as `ValueError`,
                     # `RecursionError`, `MemoryError` or `OverflowError`)
                     try:
-                        compile(e, '<string>', 'exec')
+                        # Compile the code as `build_model()` will embed it
+                        # (indented, inside a method body): code that is
+                        # only legal at module level (`from m import *`)
+                        # or that breaks when indented (a backslash
+                        # continuation line) must fail here, not later
+                        compile(
+                            'def _evaluate(self, t):\n'
+                            + textwrap.indent(e, '    ')
+                            + '\n    pass',
+                            '<string>',
+                            'exec',
+                        )
                     except (
                         SyntaxError,
                         ValueError,
